@@ -26,6 +26,8 @@ from gen.nets import CODES, NETS, PFX, GRS, HRPS, ALL_B58_PREFIXES, PREFIX_ATTRS
 from oracles import refenc, refaddr, refec
 from vlib.core import SubCheck, Violation
 
+from gen import subproc
+
 PROPERTY = "C18"
 ASSUMPTIONS = [
     "structured texts are valid Unicode; the unicode_text sub-check also feeds str values with lone surrogates",
@@ -679,6 +681,9 @@ SUBCHECKS = [
                   "with exponent 0, 1, n-1, n, n+1, 2^256-1 and compression byte 01/00/02/ff, 74-byte extended-key bodies (private, public) and "
                   "near misses (exponent 0/n, x without a point, x >= p, key prefix 1/4/5/6/7, 1-3 bytes short / long), constant and random bytes "
                   "of every length 0..80, payloads valid for a different prefix of the same network"),
+    SubCheck("b58_structured_python_O", subproc.optimized_variant("checks.c18_parse", "o_text"), strategy=s_b58, budget=(800, 20000), nontrivial=nt_text,
+             rule="the b58_structured cases evaluated in a child interpreter started with PYTHONOPTIMIZE=1 (python -O: assert statements are "
+                  "compiled away, so validation written as an assert vanishes; the child asserts that mode)"),
     SubCheck("bech32_structured", o_text, strategy=s_bech32, budget=(3000, 75000), nontrivial=nt_text,
              rule="Bech32 / Bech32m / foreign-constant strings with the network's HRP, other networks' HRPs and near misses, versions 0..17, "
                   "program lengths 0..41, missing / empty / over-padded data part, upper case"),
